@@ -1,0 +1,70 @@
+//go:build verif
+
+// Contracts for the lock-free task queue, checked by /verif/gvc (see /verif/DESIGN.md, C13).
+// ONLY the sequential behaviour is under proof: one operation at a time (atomics behave as plain loads, stores and
+// compare-and-swap on the executing path). Linearizability under concurrent enqueuers and dequeuers, which is what the
+// property is about, cannot be expressed by function contracts and is NOT claimed.
+//
+// Ghost view: qn[q][0] is the dummy node, qn[q][1..qlen[q]] the nodes holding the queued tasks in order.
+
+package queue
+
+//@ ghost var qn map[Ref]map[int]Ref
+//@ ghost var qlen map[Ref]int
+//@ pure nodeof(r Ref) *node := r
+//@ pure qat(q *lockFreeQueue, i int) *Task := nodeof(qn[q][i + 1]).value
+//@ pred qwf(q *lockFreeQueue) := q != nil && qlen[q] >= 0 && q.length == qlen[q] && q.head == qn[q][0] && q.tail == qn[q][qlen[q]] &&
+//@     (forall i :: 0 <= i && i <= qlen[q] ==> qn[q][i] != nil && allocated(qn[q][i]) && nodeof(qn[q][i]).next == (i < qlen[q] ? qn[q][i + 1] : nil)) &&
+//@     (forall i, j :: 0 <= i && i < j && j <= qlen[q] ==> qn[q][i] != qn[q][j])
+//
+//@ func load(p *unsafe.Pointer) (n *node)
+//@   requires p != nil
+//@   ensures n == *p
+//
+//@ func cas(p *unsafe.Pointer, old, new *node) (ok bool)
+//@   requires p != nil
+//@   modifies *p
+//@   ensures ok <==> old(*p) == old
+//@   ensures ok ==> *p == new
+//@   ensures !ok ==> *p == old(*p)
+//
+// Enqueue: the task becomes the last element; everything queued before stays in place.
+//@ func (q *lockFreeQueue) Enqueue(task *Task)
+//@   requires qwf(q) && qlen[q] < 2147483647
+//@   modifies q.tail, q.length, nodeof(qn[q][qlen[q]]).next, qn[q], qlen[q]
+//@   ghostdef qn[q][old(qlen[q]) + 1] := q.tail
+//@   ghostdef qlen[q] := old(qlen[q]) + 1
+//@   ensures qwf(q) && qlen[q] == old(qlen[q]) + 1 && qat(q, old(qlen[q])) == task
+//@   ensures forall i :: 0 <= i && i < old(qlen[q]) ==> qat(q, i) == old(qat(q, i))
+//@   loop 1:
+//@     invariant q == q$0 && task == task$0 && qwf(q) && n != nil && fresh(n) && n.value == task && n.next == nil
+//@     modifies q.tail, nodeof(qn[q][qlen[q]]).next
+//
+// Dequeue: nil exactly when the queue is empty; otherwise the first element, and the rest moves up by one.
+//@ func (q *lockFreeQueue) Dequeue() (t *Task)
+//@   requires qwf(q)
+//@   modifies q.head, q.tail, q.length, qn[q], qlen[q]
+//@   ghostdef forall i :: qn[q][i] := old(qlen[q]) > 0 ? old(qn[q])[i + 1] : old(qn[q])[i]
+//@   ghostdef qlen[q] := old(qlen[q]) > 0 ? old(qlen[q]) - 1 : 0
+//@   ensures qwf(q)
+//@   ensures old(qlen[q]) == 0 ==> t == nil && qlen[q] == 0
+//@   ensures old(qlen[q]) > 0 ==> t == old(qat(q, 0)) && qlen[q] == old(qlen[q]) - 1
+//@   ensures forall i :: 0 <= i && i < qlen[q] ==> qat(q, i) == old(qat(q, i + 1))
+//@   loop 1:
+//@     invariant q == q$0 && qwf(q)
+//@     modifies q.tail, q.head
+//
+//@ func (q *lockFreeQueue) IsEmpty() bool
+//@   requires qwf(q)
+//@   ensures res <==> qlen[q] == 0
+//
+//@ func (q *lockFreeQueue) Length() int32
+//@   requires qwf(q)
+//@   ensures res == qlen[q]
+//
+//@ pure asq(a AsyncTaskQueue) *lockFreeQueue := ref(a)
+//@ func NewLockFreeQueue() (res AsyncTaskQueue)
+//@   modifies qn, qlen
+//@   ghostdef qn[ref(res)][0] := asq(res).head
+//@   ghostdef qlen[ref(res)] := 0
+//@   ensures typeis(res, "*lockFreeQueue") && ref(res) != nil && fresh(ref(res)) && qwf(asq(res)) && qlen[ref(res)] == 0
